@@ -119,9 +119,9 @@ static void judge(int usable, int failed, int code, unsigned flags, int has_dest
     }
     if (P == 6) {
         if (!has_dest || !usable) return;
-        if (exp_mustfail && !reported) { report("success-where-result-cannot-fit"); return; }
-        if (exp_str && !reported) { if (D.w == 1 && strncmp((char *)D.p, exp_str, D.n)) report("wrong-result"); else if (D.w == 1 && !memchr(D.p, 0, D.n)) report("wrong-result"); return; }
-        if (exp_str && reported && !exp_mustfail && strlen(exp_str) < D.n) report("failure-on-valid");
+        if (exp_mustfail && failed == 0) { report("success-where-result-cannot-fit"); return; }
+        if (exp_str && failed == 0) { if (D.w == 1 && strncmp((char *)D.p, exp_str, D.n)) report("wrong-result"); else if (D.w == 1 && !memchr(D.p, 0, D.n)) report("wrong-result"); return; }
+        if (exp_str && failed > 0 && !exp_mustfail && strlen(exp_str) < D.n) report("failure-on-valid");
         return;
     }
     if (P == 8) {
